@@ -624,6 +624,10 @@ func (w *world) Run(t *rt.Tape, trace bool) *core.Result {
 			wires[j].L1, _ = ot.NewLabel(rH)
 		}
 		var got []ot.Label
+		reuseChoices := t.Choose(rt.SGen, 2) == 0
+		if reuseChoices {
+			smp.Scenario += " (the receiver reuses its choice buffer once the points are built)"
+		}
 		body = func() {
 			// message exchange: setup -> (Ax, Ay) -> points -> ciphertexts
 			type m1 struct{ ax, ay *big.Int }
@@ -656,7 +660,18 @@ func (w *world) Run(t *rt.Tape, trace bool) *core.Result {
 				if !ok {
 					return
 				}
-				bundle, pts, err := ot.BuildCOChoices(rR, curve, a.ax, a.ay, choices)
+				// half of the cases: the receiver's choice buffer is its own and it uses it for the next
+				// batch as soon as the points are built
+				buf := choices
+				if reuseChoices {
+					buf = append([]bool(nil), choices...)
+				}
+				bundle, pts, err := ot.BuildCOChoices(rR, curve, a.ax, a.ay, buf)
+				if reuseChoices {
+					for i := range buf {
+						buf[i] = !buf[i]
+					}
+				}
 				if err != nil {
 					fail("receiver-error", err.Error())
 					c2.Close()
